@@ -144,7 +144,8 @@ type CTBOBox struct {
 
 // MarshalZerologArray is a zerolog interface for logging
 func (ctbo CTBOBox) MarshalZerologArray(a *zerolog.Array) {
-	for i := 0; i < int(ctbo.count); i++ {
+	// count comes from the file; the items are the ones this type can hold
+	for i := 0; i < int(ctbo.count) && i < len(ctbo.items); i++ {
 		item := ctbo.items[i]
 		if item.length == 0 && item.offset == 0 {
 			break
